@@ -803,6 +803,24 @@ func L2Errors() []MethodCase {
 		m := mk(map[string]string{"level": "none", "type": "none", "status": "none"})
 		out = append(out, MethodCase{M: m})
 	}
+	// (new cases go below this line: families_c20b.go picks cases of this list by index)
+	// error responses declared ABOVE the method (they are copied into every endpoint that
+	// inherits them) whose attribute travels in a header with a name of its own
+	{
+		m := mk(map[string]string{"level": "service", "type": "object", "status": "distinct", "shape": "headers+body"})
+		m.Errors = []ErrorDef{{Name: "e_a"}}
+		m.HTTP.Responses = []Resp{{Error: "e_a", Status: 400}}
+		out = append(out, MethodCase{M: m, Types: []*TypeDef{errT()},
+			SvcErrors:   []ErrorDef{{Name: "e_svc", Type: User("ErrT")}},
+			SvcHTTPErrs: []Resp{{Error: "e_svc", Status: 412, Headers: []Map{{"code", "X-Code"}}}}})
+	}
+	{
+		m := mk(map[string]string{"level": "api", "type": "object", "status": "distinct", "shape": "headers+body"})
+		m.Errors = []ErrorDef{{Name: "e_api"}}
+		out = append(out, MethodCase{M: m, Types: []*TypeDef{errT()},
+			APIErrors:   []ErrorDef{{Name: "e_api", Type: User("ErrT")}},
+			APIHTTPErrs: []Resp{{Error: "e_api", Status: 429, Headers: []Map{{"code", "X-Code"}}}}})
+	}
 	return out
 }
 
